@@ -200,5 +200,21 @@ CHECKS['C17']['text'] += (' Real mesh elements differing in the 13th digit and a
 CHECKS['C19']['text'] += (' Besides free histories: point-directed histories (<= 4 space + <= 6 time bisections at a '
                           'corner of a root cell) and two gradings with different exponents on one mesh object.')
 
+# -- third round ------------------------------------------------------------------------------------------------
+CHECKS['C01']['text'] += (' (P6) the scheme objects the operator holds (duff_log_log, log_log, mirrors) integrate '
+                          'x, y, x^2, xy, y^2 on the unit square (ground rational facts): P1 hands non-square boxes to the Duffy rule.')
+CHECKS['C03']['text'] += (' np.argsort is modelled under its contract (ties in either order).')
+CHECKS['C05']['text'] += (' The front end follows a table helper behind the public lookup and reads literal arithmetic as '
+                          'Python does; double-precision moments are decided on the values the real lookup returns.')
+CHECKS['C07']['text'] += (' Candidates are replayed on several pairwise different witnesses of the path.')
+CHECKS['C09']['text'] += (' The element list reversed must give the direct sums; N_poly given as four orders must reach the five rules it names.')
+CHECKS['C14']['text'] += (' Two different orders (7,3), (3,7): each seminorm must use the rule of its own order.')
+CHECKS['C15']['text'] += (' One exact base rule is unordered and asymmetric (Radau): a rule is a set of (node, weight) pairs.')
+CHECKS['C16']['text'] += (' Four input forms incl. plain Python integers at corners.')
+CHECKS['C17']['text'] += (' Element lists of mixed widths; matrices 7 x 17 / 4 x 33 with the pool stand-in reporting 1 / 2 workers '
+                          '(trial count above 16 x workers and not a multiple of the chunk size).')
+CHECKS['C18']['text'] += (' eval on integer parameters given as Python int, NumPy integer, integer-dtype array and float array.')
+CHECKS['C19']['text'] += (' Exponents 1, 3/2 and 2 (3/2 through a registered power atom with sqrt(2) exact).')
+
 NA['C13'] = ('an eigenvalue bound on a matrix whose entries are quadratures of Ei/exp: no fragment of it is a '
              'statement an SMT solver can decide about the real code (DESIGN 3.20)')
